@@ -44,9 +44,14 @@ def one(d: Path):
     with lock:
         wt = pool.pop()
     try:
-        sh(["git", "-C", str(wt), "checkout", "-q", "--", "."])
+        sh(["git", "-C", str(wt), "reset", "-q", "--hard"])
         sh(["git", "-C", str(wt), "clean", "-fdq", "src"])
         ap = sh(["git", "-C", str(wt), "apply", str(d)])
+        if ap.returncode != 0:
+            ap = sh(["git", "-C", str(wt), "apply", "-3", str(d)])  # cut against an earlier HEAD: three-way
+            if ap.returncode == 0 and sh(["git", "-C", str(wt), "grep", "-l", "-e", "^<<<<<<< ", "--", "src"]).stdout.strip():
+                ap.returncode = 1
+                ap.stderr = "three-way merge left conflicts"
         row = {"applies": ap.returncode == 0, "alarms": {}, "files": sorted({l[6:].strip() for l in d.read_text().splitlines() if l.startswith("+++ b/")})}
         if ap.returncode == 0:
             for c in ALL:
@@ -57,7 +62,7 @@ def one(d: Path):
             row["note"] = ap.stderr.strip()[:200]
         return f"{d.parent.name}/{d.stem}", row
     finally:
-        sh(["git", "-C", str(wt), "checkout", "-q", "--", "."])
+        sh(["git", "-C", str(wt), "reset", "-q", "--hard"])
         sh(["git", "-C", str(wt), "clean", "-fdq", "src"])
         with lock:
             pool.append(wt)
